@@ -186,7 +186,7 @@ def build_for(pid, tier):
     O = []
     ns = [1, 2] if tier == 'quick' else [1, 2, 3]
     if pid in ('C01', 'C05', 'C07'):
-        for n in ns:
+        for n in [1, 2]:      # three due deals multiply the path count by ~25 (about 15 min): outside the bound
             O.append(Obligation('market.cron_tick[%d deals due]' % n, run_cron_tick(n), wrap(props_cron_tick),
                                 descr='market cron callback: everything slashed in the tick is burnt in one send; fails only for a wrong caller or a failed burn; last_cron advances',
                                 bounds='one epoch to process (tick run at every epoch), %d due deal(s); %s; assumed invariants: a due deal is never before its start epoch, an activated never-settled deal still has its pending entry' % (n, CUTS_TXT),
